@@ -620,7 +620,11 @@ func (p Prop) Run(r *core.Run) *core.Violation {
 	r.Sim.Activate()
 	defer r.Sim.Deactivate()
 	h := &heap{}
-	n := 3 + r.T.Intn(22)
+	maxSteps := 22
+	if r.Tier == "thorough" {
+		maxSteps = 45
+	}
+	n := 3 + r.T.Intn(maxSteps)
 	hh := fnv.New64a()
 	var hist []string
 	for i := 0; i < n; i++ {
@@ -662,18 +666,23 @@ func (p Prop) Exhaustive(tier string, report func(string, uint64), fail func(*co
 	sim.OrderMode = verifsim.OrderReverse
 	sim.Activate()
 	defer sim.Deactivate()
+	maxLen := 4
+	if tier == "thorough" {
+		maxLen = 5
+	}
 	var count uint64
 	failed := false
 	var rec func(seq []int)
 	rec = func(seq []int) {
 		if len(seq) > 0 {
 			count++
+			sim.Steps = 0
 			if v := checkSequence(seq); v != nil && !failed {
 				failed = true
 				fail(v, fmt.Sprintf("enumerated member sequence (universe indices): %v", seq))
 			}
 		}
-		if len(seq) == 4 {
+		if len(seq) == maxLen {
 			return
 		}
 		for _, i := range familyIdx {
@@ -681,7 +690,7 @@ func (p Prop) Exhaustive(tier string, report func(string, uint64), fail func(*co
 		}
 	}
 	rec(nil)
-	report("sets built from every sequence of <= 4 members of the 8-element hash-collision family", count)
+	report(fmt.Sprintf("sets built from every sequence of <= %d members of the 8-element hash-collision family", maxLen), count)
 }
 
 func checkSequence(seq []int) *core.Violation {
